@@ -9,9 +9,9 @@ CHECK = dict(
     deadline=dict(quick=300, thorough=1700),
     technique='stateless schedule exploration of the real library code: cooperative futex hand-off scheduler over real threads, preemption-bounded DFS by prefix replay, scheduling points and a vector-clock happens-before '
               'race detector driven by compiler instrumentation (-fsanitize=thread objects linked against an own __tsan_* runtime); every execution in a fresh forked process',
-    level_text='All unordered pairs (thorough: also triples) of 11 operations (pair/multimap save+load in JSON and MsgPack = first use of the function-local statics of pair.h; enum conversions through the registry; JSON/XML/CSV/MsgPack '
-               'save+load from memory and streams; number/chrono/UTF conversions; a validation-failing load; loads and saves of shared const inputs; u16string/wstring/u32string members, which go through the per-session transcoding buffer), one operation per thread, each thread on its own data. For every pair, '
-               'every schedule with <= 2 (thorough 3) preemptions is run to completion; scheduling points are guard acquire/release, atomic operations and every access to a location that one thread writes and another '
+    level_text='All unordered pairs (thorough: also triples) of 14 operations (pair/multimap save+load in JSON and MsgPack = first use of the function-local statics of pair.h; enum conversions through the registry; JSON/XML/CSV/MsgPack '
+               'save+load from memory and streams; number/chrono/UTF conversions; a validation-failing load; loads and saves of shared const inputs; u16string/wstring/u32string members, which go through the per-session transcoding buffer; every conversion family from and to char16_t/char32_t/wchar_t strings; chrono, binary, map, optional members through all four archives; JSON/CSV/XML through UTF-16LE/UTF-32BE encoded streams with BOM and formatted output), one operation per thread, each thread on its own data. For every pair, '
+               'every schedule with <= 2 preemptions (thorough: <= 3 for plain pairs, <= 2 for triples and for the dense mode) is run to completion; scheduling points are guard acquire/release, atomic operations and every access to a location that one thread writes and another '
                'touches (discovered by sequential runs in fresh processes); thorough adds a dense mode for selected pairs with a scheduling point at every instrumented function entry. Every instrumented access to a shareable '
                'address (not on the own stack, not in an own heap block) goes through a vector-clock detector whose happens-before edges come only from thread start/join, guard release->acquire and atomic release->acquire. '
                'Each thread result is compared with the result of the same operation run alone in a fresh process. Deadlock (no enabled thread) and a step horizon are outcomes.',
